@@ -483,5 +483,7 @@ var scramRestartSeqs = [][]string{
 	{"empty", "first", "first-iter2", "final", "235"}, {"empty", "first", "empty", "junk"}, {"empty", "first", "empty", "first", "final-stale"},
 	{"empty", "first", "empty", "first-iter2", "empty", "first", "final", "235"},
 	{"empty", "first-trunc", "final-bad", "235"}, {"empty", "first-foreign", "final-bad", "235"},
+	{"empty", "first", "first-foreign", "final-bad", "235"}, {"empty", "first", "first-trunc", "final-bad", "235"},
+	{"empty", "first", "final", "first-foreign", "final-bad", "235"},
 	{"empty", "first", "empty", "first-trunc", "final-bad", "235"},
 }
